@@ -377,6 +377,69 @@ def run_ops(ctx, rows, exe, vm_sample):
     return model_only
 
 
+PREAMBLE_ST = """From DL Require Import Lib.Bytes Model.Lexer Model.DenseGen Model.Precedence Model.C02Check.
+Open Scope N_scope.
+Open Scope string_scope.
+Definition sc (e : bool) (a b d r : string) : scase :=
+  {| s_exprend := e; s_a := unhex a; s_b := unhex b; s_dense := unhex d; s_readable := unhex r |}.
+Definition check_case (c : scase) : bool := scheck_case c.
+Definition diag_case (c : scase) : string := to_string (sdiag_bytes c).
+"""
+
+
+def run_stmts(ctx, out, exe, vm_sample):
+    name = ("statement boundaries: every ending expression (35 samples + trees whose last operand the generator wraps in "
+            "parentheses) x 7 statement forms x 8 following statements (7 starting with a parenthese): reference token "
+            "criterion for the mandatory ';' and darklua parser round trip")
+    rows = []
+    for line in out.splitlines():
+        p = line.split(" ")
+        if len(p) != 11 or p[0] != "st":
+            continue
+        rows.append({"span": int(p[2]), "exprend": p[3], "a": undash(p[4]), "b": undash(p[5]), "dense": undash(p[6]),
+                     "readable": undash(p[7]), "dflag": p[8], "rflag": p[9], "tag": p[10]})
+    lines = ["st %d %s %s %s %s %s" % (i, r["exprend"], r["a"] or "-", r["b"] or "-", r["dense"] or "-", r["readable"] or "-")
+             for i, r in enumerate(rows)]
+    rc, res = C.sh([exe], input="\n".join(lines) + "\n", timeout=3000)
+    bad = []
+    done = None
+    for line in res.splitlines():
+        if line.startswith("bad "):
+            _, cid, diag = (line.split(" ", 2) + [""])[:3]
+            bad.append((int(cid), diag))
+        elif line.startswith("done "):
+            done = int(line.split()[1])
+    if rc != 0 or done != len(rows):
+        raise C.CheckBroken("extracted C02 checker failed on statement boundaries (rc=%s):\n%s" % (rc, res[-1500:]))
+    flagged = sorted(set(cid for cid, _ in bad))[:20]
+    pick = sorted(set(list(range(0, len(rows), max(1, len(rows) // vm_sample))) + flagged))
+    vm_bad = C.run_coq_cases(ctx.prop, PREAMBLE_ST,
+                             [(i, 'sc %s "%s" "%s" "%s" "%s"' % ("true" if rows[i]["exprend"] == "1" else "false", rows[i]["a"],
+                                                                 rows[i]["b"], rows[i]["dense"], rows[i]["readable"]))
+                              for i in pick], chunk=max(8, len(pick) // C.NPROC + 1), tag="stmts")
+    bad_ids = set(cid for cid, _ in bad)
+    vm_ids = set(cid for cid, _ in vm_bad)
+    disagree = [i for i in pick if (i in bad_ids) != (i in vm_ids)]
+    ctx.obligation("extracted checker agrees with vm_compute inside coqc on %d sampled statement pairs" % len(pick),
+                   not disagree, "disagreements at cases %r" % disagree[:5])
+    nt = sum(1 for r in rows if bytes.fromhex(r["b"]).startswith(b"(") and r["exprend"] == "1")
+    reparse_bad = [i for i, r in enumerate(rows) if r["dflag"] not in ("ok", "okp") or r["rflag"] not in ("ok", "okp")]
+    ctx.stream(name, len(rows), nt, [{"pair": r["tag"], "dense": text_of(r["dense"])} for r in rows[40:43]],
+               mismatches=len(bad), reparse_mismatches=len(reparse_bad), evaluated_in_coqc=len(pick))
+    for i in sorted(bad_ids | set(reparse_bad)):
+        r = rows[i]
+        ending = r["tag"].split(":")[0]
+        # recorded defect: the last operand is wrapped in parentheses by the generator (no Parenthese node), the next
+        # statement starts with "(" and no ";" is written
+        known = ending.startswith("genparen") or ending == "ifexp_genparen"
+        key = "semicolon:generator-parenthesised-last-operand" if known else "boundary:%s:%d" % (r["tag"], r["span"])
+        ctx.violation("a statement ending in a prefix expression is followed by a statement starting with '(' without ';' "
+                      "(the text means one call chain) or the block is not read back as the same two statements",
+                      {"pair": r["tag"], "span": r["span"], "statement_a": text_of(r["a"]), "statement_b": text_of(r["b"]),
+                       "dense": text_of(r["dense"]), "readable": text_of(r["readable"]),
+                       "reference_criterion": dict(bad).get(i, "ok"), "darklua_parser": [r["dflag"], r["rflag"]]}, key=key)
+
+
 def dump_tables(ctx):
     out = C.harness("dl-c02", ["tables", "--seed", str(ctx.seed)])
     tables = T.parse_tables(out)
@@ -441,6 +504,8 @@ def run(ctx):
                       "reference parser still reads every text back as the same tree",
                       {"tree_polish": r["polish"], "dense": text_of(r["dense"]), "readable": text_of(r["readable"]),
                        "diag": diag, "mismatches": len(ops_model_only)}, found_input=False)
+
+    run_stmts(ctx, C.harness("dl-c02", ["stmts"], timeout=1800), exe, 60 if quick else 300)
 
     if model_only and not ctx.violations:
         r, diag = model_only[0]
